@@ -148,6 +148,20 @@ Definition venn_params (xbin ybin nchan chunk fs : Z) : vparams :=
   {| v_xbin := if xbin =? 0 then fs / 2500 else xbin; v_ybin := ybin; v_nchan := nchan;
      v_chunk := if chunk =? 0 then 20 * fs else chunk |}.
 
+(* NON-INTEGER chunk sizes (chunk_size passed as a float, or the default 20 * fs with a calibrated rate):
+   chunk k covers the half-open interval [k c, (k+1) c) of the real line, c = cn / cd > 0.  For an integer sample s
+       k c <= s < (k+1) c   <=>   k cn <= s cd < (k+1) cn,
+   the local bin floor((s - k c) / xbin) = floor((s cd - k cn) / (xbin cd)), the number of chunks
+   floor(max / c) + 1 = (max cd) / cn + 1 and the scale length ceil((c + xbin/2) / xbin) = nscale cn (xbin cd):
+   the computation IS the integer-chunk computation on the samples multiplied by the denominator.
+   (Exact for dyadic c, where k c and k c + c are exact in binary64; see notes for non-dyadic c.) *)
+Definition in_chunk_q (cn cd k : Z) (sp : spike) : bool :=
+  (k * cn <=? fst sp * cd) && (fst sp * cd <? (k + 1) * cn).
+Definition scale_spike (cd : Z) (sp : spike) : spike := (fst sp * cd, snd sp).
+Definition venn_q (xbin ybin nchan cn cd : Z) (trains : list (list spike)) : option (list Z) :=
+  venn {| v_xbin := xbin * cd; v_ybin := ybin; v_nchan := nchan; v_chunk := cn |}
+       (map (map (scale_spike cd)) trains).
+
 (* the dictionary key of code c is format(c, '0{n}b'); sorter s (0-based) is a
    member of the region iff character s of the key is '1', i.e. bit n-1-s of c.
    Sum of the result over the regions containing sorter s: *)
